@@ -887,6 +887,9 @@ pub struct Gen<'a> {
     pub reuse_keys: Vec<usize>,
     /// every delegated sub-layout carries inspections (so that several sibling sub-layouts do)
     pub inner_insp_always: bool,
+    /// the first two functionaries are one key material under two ids (an RSA key declared with two
+    /// schemes); both are authorized for every step and both hand in a link
+    pub same_material_pair: bool,
 }
 
 /// A moment of verification: mostly near `base_now`, sometimes years away from it.
@@ -931,7 +934,17 @@ impl<'a> Gen<'a> {
     pub fn valid_layout(&mut self, depth: usize, path: &str, signers: &[usize], allow_insp: bool) -> (SBlock, SDir) {
         let nsteps = 1 + self.r.below(3);
         let nfun = if self.multi_party { 3 + self.r.below(2) } else { 2 + self.r.below(2) };
-        let funs = self.pick_keys(nfun, signers);
+        let mut funs = self.pick_keys(nfun, signers);
+        if self.same_material_pair {
+            let pair = (0..self.pool.len()).find_map(|a| (0..self.pool.len()).find(|&b| b != a && self.pool[a].pk8 == self.pool[b].pk8 && kid(self.pool, a) != kid(self.pool, b) && prefix8(self.pool, a) != prefix8(self.pool, b)).map(|b| (a, b)));
+            if let Some((a, b)) = pair {
+                if !signers.contains(&a) && !signers.contains(&b) {
+                    funs.retain(|&k| k != a && k != b && prefix8(self.pool, k) != prefix8(self.pool, a) && prefix8(self.pool, k) != prefix8(self.pool, b));
+                    funs.insert(0, b);
+                    funs.insert(0, a);
+                }
+            }
+        }
         let mut steps = vec![];
         let mut dir = SDir::default();
         let mut prev_prods: Vec<(String, u8)> = vec![];
@@ -970,7 +983,8 @@ impl<'a> Gen<'a> {
             let name = step_names[i].clone();
             let co = self.co_delegate && depth > 0 && i == 0;
             let threshold = if co { 2 } else if self.multi_party { *self.r.pick(&[2u32, 2, 3]) } else { *self.r.pick(&[1u32, 1, 1, 2]) };
-            let nauth = if self.multi_party { funs.len() } else { (threshold as usize).max(1 + self.r.below(2)).min(funs.len()) };
+            let threshold = if self.same_material_pair && !co { 1 } else { threshold };
+            let nauth = if self.multi_party { funs.len() } else if self.same_material_pair { funs.len().min(2 + self.r.below(2)) } else { (threshold as usize).max(1 + self.r.below(2)).min(funs.len()) };
             let auth: Vec<usize> = funs.iter().cloned().take(nauth).collect();
             let threshold = threshold.min(auth.len() as u32);
             let mats = prev_prods.clone();
@@ -992,7 +1006,7 @@ impl<'a> Gen<'a> {
             };
             let prod_rules = vec![ArtifactRule::Create(vp(&format!("out{}{}", i, salt))), ArtifactRule::Allow(vp("*"))];
             // evidence: every authorized key provides a link (more than the threshold needs, sometimes)
-            let nlinks = if self.multi_party || self.r.chance(1, 2) { auth.len() } else { threshold as usize };
+            let nlinks = if self.multi_party || self.same_material_pair || self.r.chance(1, 2) { auth.len() } else { threshold as usize };
             let mut shared: Option<(SBlock, SDir)> = None;
             for (j, &k) in auth.iter().enumerate().take(nlinks.max(threshold as usize)) {
                 let delegate = depth > 0 && ((j == 0 && threshold == 1 && (self.force_delegate || self.r.chance(1, 3))) || (co && j < 2));
